@@ -252,7 +252,7 @@ Definition run_c10 (input : list Z) : list Z :=
                         | Ok st =>
                             [0; bump_of st]
                             ++ match signer_seeds st with
-                               | Ok ss => seedvec ss ++ out_addr (create_pda Hf oc ss spid)
+                               | Ok ss => 0 :: seedvec ss ++ out_addr (create_pda Hf oc ss spid)
                                | _ => [2]
                                end
                             ++ match validate_and_set_seeds_with_bump Hf oc st l ((bump_of st + 1) mod 256) spid key with
